@@ -64,6 +64,11 @@ impl CgrComputer {
         self.threads = threads;
     }
 
+    #[cfg(kmertools_verif)]
+    pub fn set_max_memory(&mut self, memory: usize) {
+        self.memory = memory;
+    }
+
     pub fn vectorise(&self) -> Result<(), String> {
         let mut reader = ktio::seq::get_reader(&self.in_path).unwrap();
         let buffer = reader
